@@ -128,6 +128,36 @@ def singular_case(rng, cid, prec, n, sub):
                 fact=rng.choice([0, 1]), trans=0, dumplu=1, timeout=60, kind=sub, trace=2)
 
 
+def thinsnode_case(rng, cid, prec):
+    """a relaxed supernode of w columns supported on r <= w - 2 rows, in the middle of a block-diagonal matrix (banded nonsingular
+    block, the thin block, diagonal block; natural order, relax >= w): the supernode's row list is shorter than its column count
+    minus one -- the bookkeeping at the end of p?gstrf_factor_snode (subscripts kept for the pruned graph) works on an empty range"""
+    ncomp = 2 if prec in "cz" else 1
+    rnd = c01.f32 if prec in "sc" else (lambda v: v)
+    a = rng.randint(2, 10); w = rng.randint(3, 6); r = rng.randint(1, w - 2); d = rng.randint(2, 8)
+    n = a + w + d
+    ent = {}
+    for j in range(a):
+        for i in range(max(0, j - 2), min(a, j + 3)):
+            ent[(i, j)] = gen.val(rng) + (6.0 if i == j else 0.0)
+    for j in range(a, a + w):
+        for i in range(a, a + r):
+            ent[(i, j)] = gen.val(rng)
+    for j in range(a + w, n):
+        ent[(j, j)] = gen.val(rng) + 2.0
+    A = gen.from_entries(n, ent, "singular-thinsnode")
+    vals = []
+    for v in A["vals"]:
+        vals += [rnd(v), rnd(gen.val(rng))] if ncomp == 2 else [rnd(v)]
+    nrhs = rng.choice([1, 2])
+    rhs = [rnd(gen.val(rng)) for _ in range(n * nrhs * ncomp)]
+    return dict(id=cid, prec=prec, driver=rng.choice(["gssv", "gssvx"]), stype="NC", m=n, n=n, colptr=A["colptr"], rowind=A["rowind"], vals=vals,
+                nrhs=nrhs, rhs=rhs, nprocs=rng.choice([1, 2, 4]), colperm=0,
+                ienv=[rng.choice([1, 2, 4, 8]), rng.choice([w, w + 1, 8]), rng.choice([8, 200]), 200, 100, -50, -50, -30],
+                perturb=[rng.randint(1, 10 ** 6), rng.choice([0.0, 0.2]), rng.choice([0, 100])],
+                fact=rng.choice([0, 1]), trans=0, dumplu=1, timeout=60, kind="thinsnode", trace=2)
+
+
 def snodezero_case(rng, cid, prec):
     """two or three exactly zero columns INSIDE ONE relaxed supernode (tridiagonal or block-tridiagonal matrix in natural
     order: the leaf chain of the first `relax` columns is one relaxed supernode), the first of them the globally first
@@ -248,7 +278,7 @@ def out_of_order(parts):
 def oracle(c, r):
     n = c["n"]
     if r.get("timeout") or r.get("crash") is not None or r.get("missing") or r.get("parse_error"):
-        return "run failed: %s" % {k: r.get(k) for k in ("timeout", "crash", "stderr", "parse_error")}
+        return "run failed at %s: %s" % ("timeout" if r.get("timeout") else r.get("site", "?"), {k: r.get(k) for k in ("timeout", "crash", "stderr", "parse_error")})
     if sorted(r["perm_c"]) != list(range(n)):
         return "perm_c is not a permutation"
     # (1) the info returned must be 1 + the first column whose candidates, AS THE IMPLEMENTATION SAW THEM, were all exactly zero
@@ -297,7 +327,7 @@ def run(ctx):
     ctx.coq_properties()
     pdrv = ctx.ocaml_model("pivot")
     subs = ["zerocol", "emptycol", "emptyrow", "zerorow", "structdef", "cancel", "relaxdef", "multizero", "bigfirst", "bigfirst",
-            "snodezero", "snodezero"]
+            "snodezero", "snodezero", "thinsnode", "thinsnode"]
     N = {"d": 56, "s": 14, "z": 14, "c": 14} if ctx.quick() else {"d": 700, "s": 200, "z": 200, "c": 200}
     nok = 0; ninfo = 0; nooo = 0
     for prec in "dszc":
@@ -308,6 +338,7 @@ def run(ctx):
                 sub = "zerocol"
             cases.append(bigfirst_case(rng, k + 1, prec) if sub == "bigfirst" else
                          snodezero_case(rng, k + 1, prec) if sub == "snodezero" else
+                         thinsnode_case(rng, k + 1, prec) if sub == "thinsnode" else
                          singular_case(rng, k + 1, prec, rng.randint(2, 24 if ctx.quick() else 60), sub))
         exe = drv.build(ctx, prec, "asan")
         res = drv.run_grouped(exe, cases, par=max(1, vf.NCPU // 3))
@@ -330,9 +361,13 @@ def run(ctx):
             if bad is None:
                 nok += 1
             else:
-                structural = c["kind"] in ("emptycol", "emptyrow", "structdef", "relaxdef")
+                structural = c["kind"] in ("emptycol", "emptyrow", "structdef", "relaxdef", "thinsnode")
                 if bad.startswith("run failed") and structural:
-                    key = {"kind": "singular", "class": "structural_singularity_crash"}
+                    # keyed by HOW the run died (finding F22 = out-of-bounds reads/writes and an absurd allocation size in the numeric
+                    # kernels that run on after the reported column; any other way of dying on such an input -- a negative length,
+                    # a double free, a hang, an abort -- is a different violation)
+                    key = {"kind": "singular", "class": "structural_singularity_crash",
+                           "how": "timeout" if r.get("timeout") else r.get("site", "?").split("@")[0]}
                 elif bad.startswith("STRUCT") and structural:
                     key = {"kind": "singular", "class": "structural_rank_deficiency_not_reported"}
                 else:
